@@ -135,6 +135,15 @@ func c10Scenario(r *sim.Run) {
 	o.groups = []stSubnetGroup{{1, true, []string{"192.0.2.0/28", "2001:db8:1::/124"}}, {1, false, []string{"192.0.2.64/28", "2001:db8:1::40/124"}}}
 	o.workers = 2
 	o.realDetector = true
+	// half of the runs: the station builds its detector client itself, on first use; in half of
+	// those redis-server is not reachable at that instant (the start-up ping fails) and comes up
+	// right afterwards. No message is lost by that: the first publish dials again.
+	if o.ownRedis = tp.Bool("station-builds-its-redis-client"); o.ownRedis {
+		r.Probe("station_built_its_own_redis_client")
+		if tp.Bool("redis-down-at-first-use") {
+			o.redisDown = 1
+		}
+	}
 	// a station that crashes publishes no Clear: the detector keeps every diversion
 	o.panicSig = "C10/station-crashed"
 	w := newStWorld(r, s, tp, o)
